@@ -63,9 +63,11 @@ def run(tier, replay):
     if not quick:
         for cfg, key in (("KActorsMClive", "liveness_behaved_environment"), ("KActorsMClivefree", "liveness_free_environment")):
             lv = lib.tlc("KActorsMC", cfg=cfg, pid=PID, workers=8, timeout=1500, xmx="8g")
-            if lv["error"]:
+            import re
+            tviol = re.search(r"Temporal propert(y \S+ was|ies were) violated", lv["out"]) is not None
+            if lv["error"] and not tviol:
                 lib.tool_error(f"{cfg} did not run (log {lv['log']})")
-            viol = lv["violated"] or ("Temporal properties were violated" in lv["out"])
+            viol = lv["violated"] or tviol
             mcinfo[key] = "counterexample (secondary property, see notes/unix.md)" if viol else "holds"
     # (2) the real crate on a real tokio runtime
     obs = f"{wd}/obs.ndjson"
